@@ -4,7 +4,7 @@ CONSTANTS
   Streams <- MCStreams
   Cuts <- MCCuts
   Progs <- MCProgs
-  LimitSet = {2, 10, 125, 126, 1000}
+  LimitSet = {1, 2, 10, 125, 126, 1000}
   Hist = 1
   Policy = "per_message"
 CONSTRAINT Emit
